@@ -53,6 +53,17 @@ def llist(items, per_line=4) -> str:
 
 
 def generate() -> None:
+    """never raises (other properties' checks import this plug-in too): if the tables cannot be
+    extracted, a Gen file that does not compile is written, so that only the C19 build fails."""
+    try:
+        _generate()
+    except Exception as e:  # noqa: BLE001
+        msg = (type(e).__name__ + ": " + str(e)).replace("\n", " ")[:300]
+        G.write("C19.lean", "import Ptk.Model.C19Types\n-- table extraction from the current tree FAILED: "
+                + msg + "\nexample : False := by decide\n")
+
+
+def _generate() -> None:
     from prompt_toolkit.styles import base as sbase
     from prompt_toolkit.styles import style as sstyle
     from prompt_toolkit.output import vt100
